@@ -248,11 +248,11 @@ def compare(prop, role, history, pred_groups, sim, obs_groups, case, check_invar
         last = pg['cells'][-1][1] if pg['cells'] else 'none'
         if snap['state'] != pg['state']:
             raise Violation('%s:state:%s' % (prop, last),
-                            '%s (%s, %s): provider in Sta%d, model in Sta%d'
+                            '%s (%s, %s): provider in Sta%s, model in Sta%d'
                             % (where(i), role, act_names, snap['state'], pg['state']), case)
         if snap['artim'] != pg['artim']:
             raise Violation('%s:artim:%s' % (prop, last),
-                            '%s (%s, %s, Sta%d): ARTIM running=%s, model says %s'
+                            '%s (%s, %s, Sta%s): ARTIM running=%s, model says %s'
                             % (where(i), role, act_names, pg['state'], snap['artim'], pg['artim']), case)
         if sim.sock.connected_to is not None or role == 'acceptor':
             # transport open/closed at the end of the step (a peer close must make us close our end too)
@@ -266,7 +266,7 @@ def compare(prop, role, history, pred_groups, sim, obs_groups, case, check_invar
                 if sim.sock.connected_to is not None or role == 'acceptor':
                     raise Violation('%s:inv:idle-open' % prop, '%s: idle (Sta1) with the connection still open' % where(i), case)
             if snap['artim'] != (snap['state'] in (2, 13)):
-                raise Violation('%s:inv:artim-state' % prop, '%s: ARTIM running=%s in Sta%d'
+                raise Violation('%s:inv:artim-state' % prop, '%s: ARTIM running=%s in Sta%s'
                                 % (where(i), snap['artim'], snap['state']), case)
             if over and inds:
                 raise Violation('%s:inv:indication-after-end' % prop, '%s: indication after the association ended' % where(i), case)
